@@ -519,6 +519,23 @@ func runReqLateReplyAfterRecvTimeout(c *Ctx, ctx int) {
 	e.Finish()
 }
 
+// directed (C10): two calls parked on one context — a Send still waiting for a pipe and the Recv for its reply — and the
+// socket (or just the context) is closed: both must return (Finish reports a call that is still blocked)
+func runReqCloseWakesSendAndRecv(c *Ctx, ctx int, closeCtxOnly bool) {
+	e := NewExec(c, "m.req", req.NewProtocol(), "req")
+	e.timed, e.canonIDs = true, true
+	if ctx != 0 {
+		e.OpenCtx(ctx)
+	}
+	e.SetOpt(ctx, mangos.OptionRetryTime, "60000", time.Minute)
+	e.Send(ctx, nil, []byte{0x71, 0, 1}) // no pipe: parks
+	e.Recv(ctx)                          // parks behind it
+	if closeCtxOnly && ctx != 0 {
+		e.CloseCtx(ctx)
+	}
+	e.Finish()
+}
+
 // directed (C18): "a call that can complete at once is not failed by the deadline": a Send that was accepted at once leaves
 // no deadline behind — the request is still outstanding when the send deadline has long passed, and its reply is delivered
 func runReqSendDeadlineLeavesNothing(c *Ctx, sendMs, recvMs int) {
@@ -635,6 +652,9 @@ func runC03(c *Ctx) {
 	runReqCrossDeadline(c, 0, 40, true)
 	runReqAbandonQueuedResend(c, false)
 	runReqAbandonQueuedResend(c, true)
+	runReqCloseWakesSendAndRecv(c, 0, false)
+	runReqCloseWakesSendAndRecv(c, 1, false)
+	runReqCloseWakesSendAndRecv(c, 1, true)
 	runReqLateReplyAfterRecvTimeout(c, 0)
 	runReqLateReplyAfterRecvTimeout(c, 1)
 	// faults as in C04 (lost connections, slow and failing sends, short retry time) with replies of every kind
